@@ -300,6 +300,24 @@ def wave_paths(rng, k=None):
             return desc, f'WaveSimCuda c_reuse={reuse}: s[{COLS[col]}] position {p} lane {l} = {vb[col, p, l]}, WaveSim gives {va[col, p, l]}'
         if not np.array_equal(np.asarray(a.c), np.asarray(b.c)):
             return desc, f'WaveSimCuda c_reuse={reuse}: waveform memory differs from WaveSim'
+    # capture times given as 64-bit floats that float32 cannot represent, a hair above an actual transition time of an output: both code
+    # paths must decide "before T" alike
+    from harness import waveoracle as wo
+    times = sorted({t for p in range(len(k.c.s_nodes)) for lane in range(k.sims)
+                    for t in ((wo.waveform(a, int(a.ppo_offset) + p, lane)[0] or []) if int(np.asarray(a.c_locs)[int(a.ppo_offset) + p]) >= 0 else [])
+                    if np.isfinite(t) and abs(t) < 1e6})
+    old_tcap = k.tcap
+    try:
+        for t in rng.sample(times, min(2, len(times))):
+            k.tcap = np.float64(t) * (1 + 1e-9) + 1e-9
+            a2, b2 = wk.run_case(k, cuda=False, reuse=False), wk.run_case(k, cuda=True, reuse=False)
+            va, vb = port_view(a2), port_view(b2)
+            if not np.array_equal(va, vb):
+                col, p, l = np.argwhere(va != vb)[0]
+                return dict(desc, tcap=float(k.tcap)), (f'capture time {float(k.tcap)!r} (float64, just above the transition at {t}): WaveSimCuda s[{COLS[col]}] position {p} lane {l} = '
+                                                        f'{vb[col, p, l]}, WaveSim gives {va[col, p, l]}')
+    finally:
+        k.tcap = old_tcap
     return desc, None
 
 
